@@ -315,7 +315,24 @@ def builder_sequences(tier, seed):
     return S
 
 
+def relpar_cfgs(tier, seed):
+    u, v = seeds(seed)
+    C = []
+    for (threads, kw) in [(1, dict(n=3, m=2, s=1, p=2, w="diag")), (2, dict(n=3, m=2, s=2, p=2, w="diag", mrhs=1)), (4, dict(n=3, m=2, s=1, p=2, w="none", eps="sym")),
+                          (16, dict(n=3, m=2, s=2, p=2, w="diag", mrhs=1, deriv_fail=1)), (3, dict(n=2, m=1, s=1, p=1, w="diag", real_svd=1))]:
+        d = dict(useed=u, vseed=v, threads=threads)
+        d.update(kw)
+        C.append(("relpar", d))
+    if tier == "thorough":
+        for threads in (1, 2, 3, 4, 8, 16):
+            C.append(("relpar", dict(n=4, m=2, s=2, p=2, w="diag", mrhs=1, useed=v, vseed=u, threads=threads)))
+            C.append(("relpar", dict(n=4, m=3, s=1, p=2, w="diag", useed=u + 1, vseed=v + 1, threads=threads, eps="neg")))
+    return C
+
+
 R_PROPS.update({
+    "C11": dict(prefixes=["C11", "SVD", "C01", "C02", "C03"], cfgs=lambda t, s: relpar_cfgs(t, s), want={"par"},
+                twins=[("core", dict(n=3, m=2, s=1, p=1, w="diag", eps="sym", par=1, twin=1, useed=2, vseed=5))], twin_prefixes=["C01", "C02", "C03"]),
     "C06": dict(prefixes=["C06", "SVD"], cfgs=lambda t, s: relw_cfgs(t, s),
                 twins=[("relw", dict(n=3, m=2, s=1, p=1, w="diag", kind="scale", twin=1, useed=2, vseed=5))]),
     "C07": dict(prefixes=["C07", "SVD"], cfgs=lambda t, s: relmrhs_cfgs(t, s), twins=[("relmrhs", dict(n=3, m=2, s=2, p=1, w="diag", kind="columns", twin=1, useed=2, vseed=5))]),
